@@ -109,15 +109,34 @@ func (n *c10node) String() string {
 
 func boom(id int) string { return fmt.Sprintf("boom-%d", id) }
 
+// c10panicVal is an error that cannot be asked for its text: what a method
+// panics with when it passes on a broken error it was handed (the typed-nil
+// slip, one level down).
+type c10panicVal struct{ text string }
+
+func (v c10panicVal) Error() string { panic(v.text) }
+
+// panicValue: what the node's String/Error/Errors method panics with - a text,
+// an error, or an error whose own Error method panics; each names the node.
+func (n *c10node) panicValue() any {
+	switch (n.val/7 + n.id) % 4 {
+	case 2:
+		return errors.New(boom(n.id))
+	case 3:
+		return c10panicVal{boom(n.id)}
+	}
+	return boom(n.id)
+}
+
 // ---- user types that fail on plan ----
 
 type c10stringer struct {
 	s     string
-	panic string
+	panic any
 }
 
 func (s *c10stringer) String() string {
-	if s.panic != "" {
+	if s.panic != nil {
 		panic(s.panic)
 	}
 	return s.s // nil receiver: nil-pointer dereference, like a careless user type
@@ -125,11 +144,11 @@ func (s *c10stringer) String() string {
 
 type c10error struct {
 	s     string
-	panic string
+	panic any
 }
 
 func (e *c10error) Error() string {
-	if e.panic != "" {
+	if e.panic != nil {
 		panic(e.panic)
 	}
 	return e.s
@@ -141,12 +160,12 @@ func (e *c10error) Error() string {
 type c10group struct {
 	s      string
 	causes []error
-	panic  string // Errors() panics with this text
+	panic  any // Errors() panics with this value
 }
 
 func (e *c10group) Error() string { return e.s }
 func (e *c10group) Errors() []error {
-	if e.panic != "" {
+	if e.panic != nil {
 		panic(e.panic)
 	}
 	return e.causes
@@ -262,7 +281,7 @@ func (n *c10node) field(healthy bool) zap.Field {
 		var s *c10stringer
 		switch f {
 		case ftPanic:
-			s = &c10stringer{panic: boom(n.id)}
+			s = &c10stringer{panic: n.panicValue()}
 		case ftTypedNil:
 			s = nil
 		default:
@@ -278,11 +297,11 @@ func (n *c10node) field(healthy bool) zap.Field {
 			switch f {
 			case ftPanic:
 				if n.k%2 == 0 {
-					e.panic = boom(n.id)
+					e.panic = n.panicValue()
 				} else {
 					// one of the causes panics in its Error() - first, middle
 					// or last - while the group's own message does not touch it
-					e.causes[(n.val/3)%3] = &c10error{panic: boom(n.id)}
+					e.causes[(n.val/3)%3] = &c10error{panic: n.panicValue()}
 				}
 			case ftTypedNil:
 				e = nil
@@ -292,7 +311,7 @@ func (n *c10node) field(healthy bool) zap.Field {
 		var e *c10error
 		switch f {
 		case ftPanic:
-			e = &c10error{panic: boom(n.id)}
+			e = &c10error{panic: n.panicValue()}
 		case ftTypedNil:
 			e = nil
 		default:
@@ -305,16 +324,16 @@ func (n *c10node) field(healthy bool) zap.Field {
 		case ftNilElem:
 			vals[n.k%3] = nil
 		case ftPanic:
-			vals[n.k%3] = &c10stringer{panic: boom(n.id)}
+			vals[n.k%3] = &c10stringer{panic: n.panicValue()}
 		}
 		return zap.Stringers(n.key, vals)
 	case c10Errors:
 		vals := []error{&c10error{s: "e1"}, nil, &c10error{s: "e2"}}
 		switch f {
 		case ftPanic:
-			vals[2] = &c10error{panic: boom(n.id)}
+			vals[2] = &c10error{panic: n.panicValue()}
 			if n.val%2 == 1 {
-				vals[2] = &c10group{s: "g", panic: boom(n.id)}
+				vals[2] = &c10group{s: "g", panic: n.panicValue()}
 			}
 		case ftTypedNil:
 			vals[0] = (*c10error)(nil)
